@@ -26,6 +26,17 @@ if TYPE_CHECKING:
 
 logger = logging.getLogger(__name__)
 
+# Assets and associations are looked up by identity. The generated classes
+# compare by value, which walks asset -> associations -> assets ... and does
+# not terminate on models where two assets are linked in the same way.
+def _contains(items, item) -> bool:
+    """Return True if the item itself is one of the items."""
+    return any(entry is item for entry in items)
+
+def _without(items, item) -> list:
+    """Return the items as a list without the item given."""
+    return [entry for entry in items if entry is not item]
+
 @dataclass
 class AttackerAttachment:
     """Used to attach attackers to attack step entry points of assets"""
@@ -53,7 +64,7 @@ class AttackerAttachment:
         None, otherwise.
         """
         return next((ep_tuple for ep_tuple in self.entry_points
-                                 if ep_tuple[0] == asset), None)
+                                 if ep_tuple[0] is asset), None)
 
 
     def add_entry_point(
@@ -120,7 +131,8 @@ class AttackerAttachment:
                 )
 
             if not entry_point_tuple[1]:
-                self.entry_points.remove(entry_point_tuple)
+                self.entry_points = _without(
+                    self.entry_points, entry_point_tuple)
         else:
             logger.warning(
                 f'Failed to find entry points on asset "{asset.name}" '
@@ -227,7 +239,7 @@ class Model():
             'Remove "%s"(%d) from model "%s".',
             asset.name, asset.id, self.name
         )
-        if asset not in self.assets:
+        if not _contains(self.assets, asset):
             raise LookupError(
                 f'Asset "{asset.name}"({asset.id}) is not part'
                 f' of model"{self.name}".'
@@ -241,9 +253,10 @@ class Model():
         for attacker in self.attackers:
             entry_point_tuple = attacker.get_entry_point_tuple(asset)
             if entry_point_tuple:
-                attacker.entry_points.remove(entry_point_tuple)
+                attacker.entry_points = _without(
+                    attacker.entry_points, entry_point_tuple)
 
-        self.assets.remove(asset)
+        self.assets = _without(self.assets, asset)
 
         # Release the id and the name so that they can be used again
         self.asset_ids.discard(asset.id)
@@ -267,12 +280,12 @@ class Model():
             asset.name, asset.id, type(association)
         )
 
-        if asset not in self.assets:
+        if not _contains(self.assets, asset):
             raise LookupError(
                 f'Asset "{asset.name}"({asset.id}) is not part of model '
                 f'"{self.name}".'
             )
-        if association not in self.associations:
+        if not _contains(self.associations, association):
             raise LookupError(
                 f'Association is not part of model "{self.name}".'
             )
@@ -282,15 +295,16 @@ class Model():
         left_field = getattr(association, left_field_name)
         right_field = getattr(association, right_field_name)
         found = False
-        for field in [left_field, right_field]:
-            if asset in field:
+        for field_name, field in [(left_field_name, left_field),
+                (right_field_name, right_field)]:
+            if _contains(field, asset):
                 found = True
                 if len(field) == 1:
                     # There are no other assets on this side,
                     # so we should remove the entire association.
                     self.remove_association(association)
                     return
-                field.remove(asset)
+                setattr(association, field_name, _without(field, asset))
 
         if found:
             # The asset is no longer part of the association
@@ -316,7 +330,7 @@ class Model():
         )
 
         # Check if identical association already exists
-        if association in associations_same_type:
+        if _contains(associations_same_type, association):
             raise DuplicateModelAssociationError(
                 f"Identical association {association_type} already exists"
             )
@@ -401,7 +415,7 @@ class Model():
         association     - the association to remove from the model
         """
 
-        if association not in self.associations:
+        if not _contains(self.associations, association):
             raise LookupError(
                 f'Association is not part of model "{self.name}".'
             )
@@ -411,26 +425,17 @@ class Model():
         left_field = getattr(association, left_field_name)
         right_field = getattr(association, right_field_name)
 
-        for asset in left_field:
-            assocs = list(asset.associations)
-            assocs.remove(association)
-            asset.associations = assocs
+        # In fringe cases we may have reflexive associations where the
+        # asset is part of both fields, it only lists the association once.
+        for asset in list(left_field) + list(right_field):
+            asset.associations = _without(asset.associations, association)
 
-        for asset in right_field:
-            # In fringe cases we may have reflexive associations where the
-            # association was already removed when processing the left field
-            # assets therefore we have to check if it is still in the list.
-            if association in asset.associations:
-                assocs = list(asset.associations)
-                assocs.remove(association)
-                asset.associations = assocs
-
-        self.associations.remove(association)
+        self.associations = _without(self.associations, association)
 
         # Remove association from type->association mapping
         association_type = association.__class__.__name__
-        self._type_to_association[association_type].remove(
-            association
+        self._type_to_association[association_type] = _without(
+            self._type_to_association[association_type], association
         )
         # Remove type from type->association mapping if mapping empty
         if len(self._type_to_association[association_type]) == 0:
